@@ -79,60 +79,23 @@ ConcMk.require = _conc_require
 
 # ---------------------------------------------------------------- log handling
 def exp_terms(e):
-    """Decompose a z3 real term that is a rational-linear combination of LOG(x_i)
-    into {x_i (z3 term id): (x_i, Fraction coef)} plus a rational constant.
-    Returns (terms, const) or None if the shape is not recognised."""
+    """Decompose a z3 real term that is (after normalisation) a rational-linear combination of LOG(x_i)
+    atoms into [(x_i, Fraction coef)].  Anything else (left-over polynomial part, products of logs)
+    raises ValueError."""
+    from .canon import Canon
+    cn = Canon()
+    r = cn.rf(e).simplify_const_den()
+    if not r.d.is_const():
+        raise ValueError("log expression has a non-constant denominator")
     terms = {}
-
-    def add(x, c):
-        k = x.get_id()
-        if k in terms:
-            terms[k] = (x, terms[k][1] + c)
-        else:
-            terms[k] = (x, c)
-
-    def walk(t, c):
-        if z3.is_rational_value(t):
-            return Fraction(t.numerator_as_long(), t.denominator_as_long()) * c
-        if z3.is_app(t):
-            d = t.decl()
-            kind = d.kind()
-            if kind == z3.Z3_OP_ADD:
-                return sum((walk(ch, c) for ch in t.children()), Fraction(0))
-            if kind == z3.Z3_OP_SUB:
-                ch = t.children()
-                tot = walk(ch[0], c)
-                for x in ch[1:]:
-                    tot += walk(x, -c)
-                return tot
-            if kind == z3.Z3_OP_UMINUS:
-                return walk(t.children()[0], -c)
-            if kind == z3.Z3_OP_MUL:
-                ch = t.children()
-                consts = [x for x in ch if z3.is_rational_value(x)]
-                rest = [x for x in ch if not z3.is_rational_value(x)]
-                k = c
-                for x in consts:
-                    k *= Fraction(x.numerator_as_long(), x.denominator_as_long())
-                if len(rest) == 0:
-                    return k
-                if len(rest) == 1:
-                    return walk(rest[0], k)
-                raise ValueError("nonlinear in LOG")
-            if kind == z3.Z3_OP_DIV:
-                a, b = t.children()
-                if z3.is_rational_value(b):
-                    return walk(a, c / Fraction(b.numerator_as_long(), b.denominator_as_long()))
-                raise ValueError("division by non-constant")
-            if kind == z3.Z3_OP_UNINTERPRETED and d.name() == "LOG":
-                add(t.children()[0], c)
-                return Fraction(0)
-            if kind == z3.Z3_OP_TO_REAL:
-                return walk(t.children()[0], c)
-        raise ValueError(f"unrecognised term in log expression: {t.decl().name() if z3.is_app(t) else t}")
-
-    const = walk(e, Fraction(1))
-    return terms, const
+    for mono, coef in r.n.t.items():
+        if len(mono) != 1 or mono[0][1] != 1:
+            raise ValueError(f"term is not a single LOG atom: {[(str(cn.atom_terms[a_])[:40], ex) for a_, ex in mono]}")
+        t = cn.atom_terms[mono[0][0]]
+        if not (z3.is_app(t) and t.decl().kind() == z3.Z3_OP_UNINTERPRETED and t.decl().name() == "LOG"):
+            raise ValueError(f"non-LOG atom {str(t)[:60]}")
+        terms[mono[0][0]] = (t.children()[0], coef)
+    return terms, Fraction(0)
 
 
 def log_equals_log_of(code_log, ref_pos):
@@ -268,7 +231,8 @@ def _discharge(rec, it, assumptions, mk, kwargs, key_prefix, timeout_ms, robust,
     def payload(m):
         return {"kwargs": kwargs, "values": mk.values(m), "label": it.label}
 
-    v = rec.obligation(it.label, ass, goal, key=key, replay=payload, timeout_ms=timeout_ms, syntactic=all_zero)
+    v = rec.obligation(it.label, ass, goal, key=key, replay=payload, timeout_ms=timeout_ms if all_zero or it.kind == "true"
+                       else min(timeout_ms, 30000), syntactic=all_zero, seed_names=mk.names, seed_from=mk.assume)
     if v.status == "unknown" and per_entry_fallback and len(negs) > 1:
         # retry entry by entry (smaller queries); the grouped 'unknown' record is replaced
         rec.obligations.pop()
